@@ -83,6 +83,90 @@ func (o *L0Organizer) VerifDumpL0State() string {
 	return string(b)
 }
 
+// VerifL0StateEqual compares, field by field and without allocating, everything VerifDumpL0State prints.
+func (o *L0Organizer) VerifL0StateEqual(p *L0Organizer) bool {
+	a, b := o.l0Sublevels, p.l0Sublevels
+	if a.fileBytes != b.fileBytes || len(a.flushSplitUserKeys) != len(b.flushSplitUserKeys) ||
+		len(a.orderedIntervals) != len(b.orderedIntervals) || len(a.levelFiles) != len(b.levelFiles) ||
+		len(a.Levels) != len(b.Levels) || len(a.fileState) != len(b.fileState) {
+		return false
+	}
+	for i := range a.flushSplitUserKeys {
+		if string(a.flushSplitUserKeys[i]) != string(b.flushSplitUserKeys[i]) {
+			return false
+		}
+	}
+	for i := range a.orderedIntervals {
+		x, y := &a.orderedIntervals[i], &b.orderedIntervals[i]
+		if x.index != y.index || string(x.startKey.key) != string(y.startKey.key) ||
+			x.startKey.isInclusiveEndBound != y.startKey.isInclusiveEndBound ||
+			x.isBaseCompacting != y.isBaseCompacting ||
+			x.intervalRangeIsBaseCompacting != y.intervalRangeIsBaseCompacting ||
+			x.filesMinIntervalIndex != y.filesMinIntervalIndex || x.filesMaxIntervalIndex != y.filesMaxIntervalIndex ||
+			x.compactingFileCount != y.compactingFileCount || x.estimatedBytes != y.estimatedBytes ||
+			len(x.files) != len(y.files) {
+			return false
+		}
+		for j := range x.files {
+			if x.files[j].TableNum != y.files[j].TableNum {
+				return false
+			}
+		}
+	}
+	for sl := range a.levelFiles {
+		if len(a.levelFiles[sl]) != len(b.levelFiles[sl]) || a.Levels[sl].Len() != b.Levels[sl].Len() {
+			return false
+		}
+		for j, f := range a.levelFiles[sl] {
+			g := b.levelFiles[sl][j]
+			if f.TableNum != g.TableNum || *a.state(f) != *b.state(g) {
+				return false
+			}
+		}
+		ia, ib := a.Levels[sl].Iter(), b.Levels[sl].Iter()
+		for f, g := ia.First(), ib.First(); f != nil || g != nil; f, g = ia.Next(), ib.Next() {
+			if f == nil || g == nil || f.TableNum != g.TableNum {
+				return false
+			}
+		}
+	}
+	return true
+}
+
+// VerifL0StateHash is a 64-bit FNV-1a style digest of the interval state (used only to count distinct
+// organizer states reached).
+func (o *L0Organizer) VerifL0StateHash() uint64 {
+	s := o.l0Sublevels
+	h := uint64(14695981039346656037)
+	mix := func(v uint64) { h = (h ^ v) * 1099511628211 }
+	bit := func(b bool) uint64 {
+		if b {
+			return 1
+		}
+		return 0
+	}
+	for i := range s.orderedIntervals {
+		iv := &s.orderedIntervals[i]
+		for _, c := range iv.startKey.key {
+			mix(uint64(c))
+		}
+		mix(bit(iv.startKey.isInclusiveEndBound) | bit(iv.isBaseCompacting)<<1 | bit(iv.intervalRangeIsBaseCompacting)<<2)
+		mix(uint64(iv.filesMinIntervalIndex)<<16 | uint64(iv.filesMaxIntervalIndex))
+		mix(uint64(iv.compactingFileCount)<<32 | iv.estimatedBytes)
+		for _, f := range iv.files {
+			mix(uint64(f.TableNum)<<8 | uint64(s.state(f).subLevel))
+		}
+		mix(0xfff)
+	}
+	for _, k := range s.flushSplitUserKeys {
+		for _, c := range k {
+			mix(uint64(c))
+		}
+		mix(0xffe)
+	}
+	return h
+}
+
 // VerifCheckCompaction runs Pebble's own (otherwise unused) debugging helper checkCompaction on a
 // picked candidate. The harness only records its verdict as a statistic next to the independent
 // oracle; it does not decide violations.
